@@ -15,6 +15,7 @@ def check(run):
         crules.size_rules(run, r2, ast)
         crules.reserve_rules(run, r3, ast)
         crules.alloc_rules(run, r3, ast)
+        crules.model_rules(run, r3, ast, parts=("params",))
     run.assumptions += ["the call-time read vptr[slot] is decided by C01-walk; with the pointer biased by -first_slot the effective cell is slot - first_slot at all three sites",
                         "C04-reserve is the structural invariant the allocator's collision-freedom argument rests on (every slot taken is reserved in all bases and "
                         "in all covariant classes' bases); a new guard on one of these steps is reported - a behaviour-preserving guard would need its own argument",
